@@ -135,6 +135,8 @@ def r2(tree, prog, rep):
         bad = []
         for u in uses_of(ck, kv):
             par = getattr(u, "_parent", None)
+            if isinstance(par, ast.Call) and dotted(par.func) in ("isinstance", "len", "type") and u in par.args:
+                continue        # inspecting the key's type / length (assertions) does not use its value
             if not (isinstance(par, ast.Call) and dotted(par.func) in allowed and u in par.args):
                 bad.append(u)
         rep.check("C01.R2", "the session key has no other use in %s" % ck.name, not bad, site(bad[0], p) if bad else site(ck, p),
